@@ -614,7 +614,10 @@ Example: `$var = (const) $(my_int)`""",
                     )
 
         if scoreboard_player.player_type == PlayerType.INTEGER:
-            if operator == "+=":
+            # -2147483648 cannot be negated into a valid add/remove amount:
+            # it goes through the integer constant like `*=` does
+            is_int_min = scoreboard_player.value == -2147483648
+            if operator == "+=" and not is_int_min:
                 if (
                     isinstance(scoreboard_player.value, int)
                     and scoreboard_player.value < 0
@@ -631,7 +634,7 @@ Example: `$var = (const) $(my_int)`""",
                     objective_name,
                     datapack,
                 )
-            if operator == "-=":
+            if operator == "-=" and not is_int_min:
                 if (
                     isinstance(scoreboard_player.value, int)
                     and scoreboard_player.value < 0
